@@ -8,7 +8,7 @@ CONSTANTS
   InheritBound <- MCInheritBound
   MaxDepth = 4
   Starts <- StartsContent2
-  Allowed = {"resources.shadow.deep", "fresh.aboveMax", "maxid.setObject", "counts.indirect", "delete.bookmark"}
+  Allowed = {"resources.shadow.incremental"}
   Emit = TRUE
   EmitMod = 2000
   EmitModV = 200
